@@ -16,7 +16,7 @@ def run(tier):
     def sig(clause, e):
         c = e["c"]
         return {"clause": clause, "ae": c["ae"], "ct": c["ct"], "size": c["size"], "pre": c["pre"], "explicit": c["explicit"],
-                "setcl": c["setcl"], "pos": c["pos"], "level": c["level"], "observed": e["o"]}
+                "setcl": c["setcl"], "flush": c["flush"], "pos": c["pos"], "level": c["level"], "observed": e["o"]}
     cases.judge(chk, "ObsGzipTrace", "ObsGzipTrace.cfg", tp, sig, "gzip")
     chk.sample({"case": cs[len(cs) // 3]})
     chk.cov["exhaustive"] = tier == "thorough"
